@@ -1,6 +1,7 @@
 #!/bin/bash
 # run the thorough tier of every claimed check one after the other; summary at the end
 cd "$(dirname "$0")/.." || exit 9
+[ -n "$VP_RUN_REPO" ] && export VERIF_REPO=$VP_RUN_REPO
 ./setup.sh >/dev/null 2>&1
 for p in $(cat claimed.txt); do
   s=$(date +%s)
